@@ -392,6 +392,36 @@ def _alarm(signum, frame):
     raise CaseTimeout()
 
 
+def _children_busy(pause=0.4):
+    """True when a child process of this worker (the reference solver) is computing rather than waiting for input:
+    state R, or CPU time that grows over a short pause.  The per-case limit is there to catch the WRAPPER hanging
+    on a reply that never comes (the child then sleeps on its stdin); a reference solver that is still enumerating a
+    large finite domain is the harness being slow, not the library misbehaving."""
+    me = os.getpid()
+
+    def scan():
+        out = {}
+        for d in os.listdir("/proc"):
+            if not d.isdigit():
+                continue
+            try:
+                with open("/proc/%s/stat" % d) as fh:
+                    st = fh.read()
+                rest = st[st.rindex(")") + 2:].split()
+                ppid, state = int(rest[1]), rest[0]
+                if ppid == me:
+                    out[int(d)] = (state, int(rest[11]) + int(rest[12]))
+            except (OSError, ValueError, IndexError):
+                continue
+        return out
+    a = scan()
+    if any(stt == "R" for stt, _ in a.values()):
+        return True
+    time.sleep(pause)
+    b = scan()
+    return any(stt == "R" or (pid in a and cpu > a[pid][1]) for pid, (stt, cpu) in b.items())
+
+
 def _name(z):
     P = pool()
     if hasattr(z, "symbol_name"):
@@ -559,6 +589,8 @@ def run_real(ops, lenient=False, layout=0, companion=None):
             s = P.env.factory.Solver(name=name, logic=QF_AUFBVLIRA)
         except CaseTimeout:
             rec["init_exc"] = "CaseTimeout"
+            if _children_busy():
+                rec["ref_slow"] = True
         except Exception as e:      # noqa
             rec["init_exc"] = type(e).__name__ + ": " + str(e)[:200]
         if s is not None:
@@ -610,6 +642,8 @@ def run_real(ops, lenient=False, layout=0, companion=None):
                         raise ValueError("unknown op %r" % (op,))
                 except CaseTimeout:
                     out = "exc:CaseTimeout"
+                    if _children_busy():
+                        rec["ref_slow"] = True
                 except Exception as e:      # noqa
                     out = "exc:" + type(e).__name__
                     rec["exc_text"] = str(e)[:200]
@@ -1483,6 +1517,8 @@ def _work_factory(case):
                 out = "true" if r else "false"
         except CaseTimeout:
             out = "exc:CaseTimeout"
+            if _children_busy():
+                rec["ref_slow"] = True
         except Exception as e:      # noqa
             out = "exc:" + type(e).__name__ + ": " + str(e)[:100]
         rec["outs"].append(out)
@@ -1543,33 +1579,24 @@ def _work_factory(case):
 
 
 def _work(case):
-    global _CUR, CASE_TIMEOUT
+    global _CUR
     case = as_case(case)
     lenient = bool(case.get("lenient"))
     ops = case["ops"]
     if case.get("factory"):
         res = _work_factory(case)
-        if "exc:CaseTimeout" in (res.get("rec") or {}).get("outs", []):
-            saved = CASE_TIMEOUT     # wall-clock limit: retry once with ten times the limit (see below)
-            CASE_TIMEOUT = saved * 10
-            try:
-                res = _work_factory(case)
-            finally:
-                CASE_TIMEOUT = saved
+        if (res.get("rec") or {}).get("ref_slow"):
+            return {"rec": {"ops": ops, "ref_slow": True}, "viol": [], "req": None, "key": None, "crash": None,
+                    "ref_slow": True}
         return res
     _CUR = case.get("env", 0) or 0
     try:
         rec = run_real(ops, lenient, case.get("layout", 0) or 0, case.get("companion"))
-        if rec.get("init_exc") == "CaseTimeout" or "exc:CaseTimeout" in rec.get("outs", []):
-            # the per-case limit is wall-clock time: on an overloaded machine a healthy case can exceed it.  Only a
-            # hang that REPEATS under a ten times larger limit is a finding; otherwise the second run is the case.
-            saved = CASE_TIMEOUT
-            CASE_TIMEOUT = saved * 10
-            try:
-                rec = run_real(ops, lenient, case.get("layout", 0) or 0, case.get("companion"))
-                rec["timeout_retried"] = True
-            finally:
-                CASE_TIMEOUT = saved
+        if rec.get("ref_slow"):
+            # the reference solver was still enumerating when the per-case limit expired: the harness's oracle is too
+            # slow for this case (counted), nothing can be concluded about the library
+            return {"rec": {"ops": ops, "ref_slow": True}, "viol": [], "req": None, "key": None, "crash": None,
+                    "ref_slow": True}
         rec["real_answer"] = real_answer(rec)      # canonical form, computed in the environment of the case
         viol = analyse(rec)
         return {"rec": rec, "viol": viol, "req": model_request(rec), "key": nontrivial_key(rec), "crash": None}
@@ -1620,6 +1647,9 @@ def process_results(ctx, results):
     for r in results:
         if r["crash"]:
             ctx.infra("C17 case crashed in the harness: %s on %s" % (r["crash"], r["rec"]["ops"]))
+            continue
+        if r.get("ref_slow"):
+            ctx.count("case skipped: the reference solver was still enumerating at the per-case limit")
             continue
         rec = r["rec"]
         ctx.case(r["key"])
